@@ -79,6 +79,13 @@ impl H {
         }
     }
     fn apply(&mut self, op: &Op) -> Result<(), String> {
+        self.apply_quiet(op)?;
+        self.observe()
+    }
+
+    /// the operation on the real graph and on the model WITHOUT reading anything back (sparse observation:
+    /// a value cached at the last read and invalidated by a counter must survive long unobserved stretches)
+    fn apply_quiet(&mut self, op: &Op) -> Result<(), String> {
         match op {
             Op::AddNode(st) => {
                 let id = self.real.add_node(*st);
@@ -148,7 +155,7 @@ impl H {
                 self.snaps.push((self.real.clone(), self.model.clone()));
             }
         }
-        self.observe()
+        Ok(())
     }
 
     fn observe(&self) -> Result<(), String> {
@@ -514,6 +521,72 @@ pub fn run(ctx: &mut Ctx) {
         }
         ctx.rec.case_marker(case, "random graph history");
         run_hist(ctx, &h);
+    }
+    ctx.rec.checkpoint();
+    // sparse observation: read everything once, apply EXACTLY W operations without reading anything back, read
+    // again. W sits on and beside powers of two (an 8 / 16 bit revision counter that guards a cached count or
+    // a cached printout wraps there and serves the value of W operations ago). Two kinds of stretch:
+    // edge toggles that are all effective (every one counts under any definition of "operation"), and the
+    // full random alphabet.
+    let widths: &[usize] = if ctx.is_fuzz() { &[255, 256, 257] } else { &[255, 256, 257, 511, 512, 65535, 65536, 65537, 131072] };
+    for (wi, w) in widths.iter().enumerate() {
+        for variant in 0..4u64 {
+            case += 1;
+            if !ctx.mine(case) {
+                continue;
+            }
+            let mut r = Rng::derive(ctx.seed, &[18, 99, wi as u64, variant]);
+            let mut h = H::new();
+            let mut pre = vec![];
+            for _ in 0..6 {
+                pre.push(Op::AddNode(r.range(0, 3) as i32));
+            }
+            pre.extend([Op::AddEdge(5, 4, 1), Op::AddEdge(4, 5, 2), Op::AddEdge(5, 5, 3)]);
+            if variant == 1 {
+                pre.push(Op::Snapshot);
+            }
+            ctx.rec.case_marker(case, "sparse observation");
+            let mut failed = false;
+            for op in pre.iter() {
+                if let Ok(Err(t)) | Err(t) = guarded(|| h.apply(op)) {
+                    ctx.rec.violation("C18", "Graph|sparse-observation|setup", &t, "");
+                    failed = true;
+                    break;
+                }
+            }
+            if failed {
+                continue;
+            }
+            let pairs: [(usize, usize); 7] = [(0, 1), (1, 2), (2, 3), (3, 0), (0, 2), (1, 3), (2, 2)];
+            let big = op_alphabet(6);
+            let res = guarded(|| -> Result<(), String> {
+                for j in 0..*w {
+                    let op = if variant < 2 {
+                        let (a, b) = pairs[j % 7];
+                        if h.model.edges.contains_key(&(h.id(a), h.id(b))) {
+                            Op::RemoveEdge(a, b)
+                        } else {
+                            Op::AddEdge(a, b, (j % 9) as i32)
+                        }
+                    } else {
+                        let op = r.pick(&big).clone();
+                        // keep the nodes (a graph without nodes makes every later operation a no-op) and the snapshots
+                        if matches!(op, Op::RemoveNode(_) | Op::Snapshot) { Op::AddEdge(r.below(6), r.below(6), 4) } else { op }
+                    };
+                    h.apply_quiet(&op)?;
+                }
+                h.observe()
+            });
+            ctx.rec.count("api_ops", *w as u64);
+            ctx.rec.count("sparse_observation_stretches", 1);
+            ctx.rec.max("sparse_observation_longest_unobserved_stretch", *w as u64);
+            ctx.rec.cover(&format!("sparse|W{}|v{}", w, variant));
+            match res {
+                Ok(Ok(())) => {}
+                Ok(Err(t)) => ctx.rec.violation("C18", "Graph|sparse-observation|mismatch", &format!("{} ; read, then {} unobserved operations (variant {}), then read again", t, w, variant), ""),
+                Err(p) => ctx.rec.violation("C18", &format!("Graph|sparse-observation|panic|{}", panic_sig(&p)), &p, ""),
+            }
+        }
     }
     ctx.rec.checkpoint();
     instr_part(ctx);
